@@ -492,11 +492,10 @@ impl World {
                     if let Some(t) = v.get("Pending").and_then(|p| p.get("attempt_time_seconds")).and_then(|t| t.as_u64()) {
                         v["Pending"]["attempt_time_seconds"] = json!(t + secs);
                         s.node.datastore.insert(k.clone(), (v.to_string(), g));
-                        // from now on the record counts as written `secs` later on the grid
-                        let (written, aged) = self.pending_meta.get(&k).cloned().unwrap_or((self.grid_s, 0));
-                        let _ = aged;
-                        let new_written = written + secs;
-                        self.pending_meta.insert(k, (new_written, self.grid_s.saturating_sub(new_written)));
+                        // the ageing bookkeeping (grid time already applied to this record) stays as it is: from here on
+                        // the record keeps ageing by the grid time that passes. (It used to move `written` forward by
+                        // `secs`, which saturated when the record was younger than `secs` and then aged it too little:
+                        // engine and C11 monitor disagreed - a false alarm of the machinery, found by C11 thorough.)
                     }
                 }
             }
